@@ -185,6 +185,26 @@ fn worker(args: &[String]) -> i32 {
                     plan: minp.clone(),
                 };
                 std::fs::write(&path, serde_json::to_string_pretty(&rf).unwrap()).expect("write replay");
+                // the plan as generated, in case the minimised one only fails with state that the code
+                // under test carried over from the minimiser's earlier executions in this process
+                let mut full_path = String::new();
+                if plan::size(&minp) != orig {
+                    let fp = dir.join(format!("{prop}-{seed}.full.json"));
+                    let rf_full = ReplayFile {
+                        property: prop.clone(),
+                        oracle: v.oracle.clone(),
+                        message: v.msg.clone(),
+                        seed,
+                        scenario: plan::scenario_name(&p).to_string(),
+                        job: job.name.clone(),
+                        original_size: orig,
+                        minimised_size: orig,
+                        plan: p.clone(),
+                    };
+                    if std::fs::write(&fp, serde_json::to_string_pretty(&rf_full).unwrap()).is_ok() {
+                        full_path = fp.display().to_string();
+                    }
+                }
                 agg.rep.violations.push(FoundViolation {
                     property: prop.clone(),
                     oracle: mv.oracle.clone(),
@@ -195,6 +215,7 @@ fn worker(args: &[String]) -> i32 {
                     shrunk_from: orig,
                     shrunk_to: plan::size(&minp),
                     signature: String::new(),
+                    replay_full: full_path,
                 });
                 let _ = std::fs::write(&stop, b"violation");
                 break 'jobs;
@@ -303,6 +324,26 @@ fn check(prop: &str, tier_arg: &str) -> i32 {
                     break;
                 }
                 other => last = format!("{other:?}"),
+            }
+        }
+        if !ok && !v.replay_full.is_empty() {
+            // the minimised plan does not fail in a fresh process: the code under test keeps state across
+            // server objects of one process and the minimiser's executions shared it. The plan as generated
+            // is a complete run from a fresh process' point of view: report that one if it reproduces.
+            for _ in 0..3 {
+                let st = std::process::Command::new(&exe).args(["replay", &v.replay_full]).stdout(std::process::Stdio::null()).status();
+                if matches!(st, Ok(s) if s.code() == Some(1)) {
+                    ok = true;
+                    break;
+                }
+            }
+            if ok {
+                eprintln!("HARNESS (warning): the minimised replay {} does not reproduce in a fresh process, the plan as generated does: the code under test keeps state across runs in one process; reporting the unminimised plan", v.replay);
+                let mut v2 = v.clone();
+                v2.replay = v.replay_full.clone();
+                v2.shrunk_to = v.shrunk_from;
+                confirmed.push(v2);
+                continue;
             }
         }
         if ok {
